@@ -308,7 +308,9 @@ class Check:
                     depth += 1
                 elif re.match(r"^End\s+\w+\s*\.", t) and depth > 0:
                     depth -= 1
-                if re.search(r"\b(Admitted|admit|Axiom|Axioms|Parameter|Parameters|Conjecture|Conjectures)\b", t) or \
+                t = re.sub(r'"[^"]*"', '""', t)  # string literals out (generated tables quote repository text)
+                if re.match(r"^(Local\s+|Global\s+|#\[[^\]]*\]\s*)*(Axiom|Axioms|Parameter|Parameters|Conjecture|Conjectures)\b", t) or \
+                   re.search(r"\b(Admitted|admit|give_up)\b", t) or \
                    re.search(r"Unset\s+(Guard|Positivity|Universe)\s+Checking|bypass_check|Admit\s+Obligations", t) or \
                    (depth == 0 and re.match(r"^(Variable|Variables|Hypothesis|Hypotheses|Context)\b", t)):
                     bad.append("%s:%d: %s" % (os.path.basename(f), i, t[:80]))
